@@ -6,6 +6,7 @@ from engine.callgraph import func_refs
 from engine.dataflow import decl_of, PtrTaint
 from engine.facts import AnalysisBroken, render, strip
 from engine.polarity import result_tests
+from rules import common
 
 LEVEL = 'other'
 O_WRONLY, O_RDWR, O_CREAT, O_EXCL, O_TRUNC, O_APPEND = 0o1, 0o2, 0o100, 0o200, 0o1000, 0o2000
@@ -89,7 +90,7 @@ def run(ctx):
         raise AnalysisBroken('no file-type output found in the registry')
     for o in filetype:
         reach = cg.reachable([o])
-        w = [k for k in writers if k in reach]
+        w = [k for k in writers if k in reach and own_code(cg, o, writers[k][0])]
         chk.ob('W3', 'funnel[%s]' % o.name, len(w) == 1, o.where(), o.name,
                '%s reaches %d file-opening functions (%s)' % (o.name, len(w), ', '.join(str(x) for x in w)),
                how='delegates to %s' % (writers[w[0]][0].name if w else '?'))
@@ -105,10 +106,18 @@ def run(ctx):
         chk.ob('W3', 'no-stray-emission[%s]' % o.name, not stray,
                stray[0][1].where() if stray else o.where(), o.name,
                'additional emission outside the single writer: %s' % (render(stray[0][1]) if stray else ''))
-    chk.ob('W3', 'single-writer', len(writers) == 1, '', ', '.join(f.name for f, _ in writers.values()),
-           '%d functions open log files' % len(writers))
+    # the outputs the property names (file, and its delegates devtty / devnull) share ONE writer; an output the
+    # property does not name (a later addition) may bring its own, which is then held to W1/W2 like the other
+    named = [o for o in filetype if o.name in PROPERTY_FILE_OUTPUTS]
+    named_writers = {k for o in named for k in writers if k in cg.reachable([o]) and own_code(cg, o, writers[k][0])}
+    chk.ob('W3', 'single-writer', len(named_writers) == 1, '', ', '.join(writers[k][0].name for k in sorted(named_writers, key=str)),
+           '%d functions open log files for the file/devtty/devnull outputs' % len(named_writers),
+           how='%d writer(s) in all: %s' % (len(writers), ', '.join(f.name for f, _ in writers.values())))
     for key, (W, opens) in writers.items():
         check_writer(ctx, W, opens)
+
+
+PROPERTY_FILE_OUTPUTS = {'snoopy_output_fileoutput', 'snoopy_output_devttyoutput', 'snoopy_output_devnulloutput'}
 
 
 def own_code(cg, out_func, f):
@@ -187,6 +196,18 @@ def check_writer(ctx, W, opens):
                    'the result of %s is not tested before use' % render(o))
             continue
         mn, mx = count_from(W, starts, lambda e: e.id in ids)
+        if mn == 0 and mx == 1:
+            # ways from the successful open to a return that write nothing are acceptable when they report failure
+            # (the record is then lost as a whole, never split): a validation of the opened object, a failed malloc
+            FAIL = common.macro_value(ctx.repo, 'SNOOPY_OUTPUT_FAILURE')
+            okz = True
+            for sb in starts:
+                visited, _ = C.reach(W, (sb, 0), lambda e: e.id in ids)
+                for r in C.return_nodes(W):
+                    if r.id in visited and not (r.ch and strip(r.ch[0]).get('v') == FAIL):
+                        okz = False
+            if okz:
+                mn = 1
         chk.ob('W2', 'one-write-per-record[%s]' % W.name, mn == 1 and mx == 1,
                emits[0][1].where() if emits else o.where(), W.name,
                'between open and close a record causes between %s and %s write-class calls (%s): anything but exactly '
